@@ -222,6 +222,8 @@ FIXED = [
     {'k': 'fence', 'stmts': ['```', 'Y = X']},
     {'k': 'fence', 'stmts': ['Y = X', '```\nfoo = 1']},
     {'k': 's', 's': 'Y[=1]'},
+    {'k': 's', 's': 'b = {as} * X'},
+    {'k': 's', 's': 'Y = <if> + X[-1]\nZ = { None }'},
     {'k': 'meta', 'stmts': ['Y = X[%s]' % ('0' * 4299 + '1')], 'var': 'Y = X[ +%s ]' % ('0' * 4299 + '1'), 'strict': True, 'feats': ['inner', 'sign'], 'flags': [], 'perm': None, 'skipfix': []},
     {'k': 'meta', 'stmts': ['Y = X[%s]' % ('0' * 4300 + '1')], 'var': 'Y = X[ +%s ]' % ('0' * 4300 + '1'), 'strict': True, 'feats': ['inner', 'sign'], 'flags': [], 'perm': None, 'skipfix': []},
     {'k': 'meta', 'stmts': ['Y = (X + Z)'], 'var': 'Y = (X +\x0c  Z\r\n)', 'strict': True, 'feats': ['cont'], 'flags': [], 'perm': None, 'skipfix': []},
@@ -476,6 +478,10 @@ def merge_reference(parsed):
     return list(table.values()) + verb
 
 
+import keyword as _keyword
+_KWNAME = re.compile(r'(?<![A-Za-z0-9_.])(?:%s)\[' % '|'.join(_keyword.kwlist))
+
+
 def oracle(case, obs):
     fails = []
     flags = set(case.get('flags', []))
@@ -552,6 +558,13 @@ def oracle(case, obs):
             fails.append({'sig': 'C14|fixed-point|equation-without-equals',
                           'what': 'the parser produced the normalised equation %r without "=" (an index bracket spanning the "=" of the statement); '
                                   'fed back it is rejected — script %s' % (ent['eq'], json.dumps(case.get('s', ''))[:120])})
+            continue
+        if ent.get('exc') == 'ParserError' and _KWNAME.search(re.sub(r'`[^`]*`', '', ent['eq'])):
+            # a {parameter} / <error> named like a reserved word: its normal form NAME[t] is read as _INVALID by term_re
+            fails.append({'sig': 'C14|fixed-point|reserved-word-name',
+                          'what': 'the normalised equation %r contains a term named like a reserved word of Python (written in braces / angle '
+                                  'brackets in the script); fed back as %r it is rejected with ParserError — script %s'
+                                  % (ent['eq'], ent['fed'], json.dumps(case.get('s', case.get('var', '')))[:120])})
             continue
         if 'exc' in ent:
             add('fixed-point', 're-parsing the normalised equation %r (fed as %r) raises %s' % (ent['eq'], ent['fed'], ent['exc']))
